@@ -360,6 +360,10 @@ pub fn run(runner: &mut Runner, data_dir: &str, behaviours: Option<&str>, seed: 
             }
             _ => "sim",
         };
-        bag_case(runner, &mut rng, kind, format!("s{ci}"), SIM, banks, nprocs, nrand);
+        // the same kind of event under a real-data run number whose maps equal the simulation's (pad layout of
+        // 4418..10417) but whose delays, baselines and gains differ: a result must depend on (run, banks) only,
+        // not on which runs this process handled before (fresh processes see only this one)
+        let r = if ci % 4 == 2 { 9500 } else { SIM };
+        bag_case(runner, &mut rng, kind, format!("s{ci}"), r, banks, nprocs, nrand);
     }
 }
